@@ -3,6 +3,7 @@
 //! prints one JSON line {"scenario":..,"observed":{..},"violation":bool,"why":".."}; exit 0 = no violation, 1 = violation, 3 = bad scenario
 use serde_json::{json, Value};
 
+mod c07;
 mod c08;
 
 fn main() {
@@ -28,6 +29,8 @@ fn main() {
 
 fn run(name: &str, args: &Value) -> Value {
     match name {
+        "c07_ws" => c07::ws(args),
+        "c07_http" => c07::http(args),
         "c08_append" => c08::append(args),
         "c08_response" => c08::response(args),
         other => {
